@@ -25,7 +25,7 @@ def run(argv):
         for pid in checks:
             p = subprocess.run([sys.executable, os.path.join(build.VERIF, "bin", "verif"), "check", pid, "--tier", tier], stdout=subprocess.PIPE, stderr=subprocess.STDOUT, env=env, cwd=build.VERIF)
             txt = p.stdout.decode(errors="replace")
-            keys = re.findall(r"^  violated: (\S+) \(x(\d+)\)", txt, flags=re.M)
+            keys = re.findall(r"^  violated: (.+?) \(x(\d+)\)", txt, flags=re.M)
             results[pid] = dict(rc=p.returncode, keys=[k for k, n in keys], counts={k: int(n) for k, n in keys})
             print("%s %s seed=%s rc=%d keys=%s" % (pid, tier, seed, p.returncode, [k for k, n in keys][:12]))
             if p.returncode == 2:
